@@ -73,7 +73,7 @@ func runC19RT(t *testing.T, sc *world.Scenario) *check.Result {
 	mode := c19Modes[int(sc.Params["mode"])]
 	timeout := c19Timeouts[int(sc.Params["timeout"])]
 	res.Sample = fmt.Sprintf("rt.c19 mode=%s timeout=%s", mode, timeout)
-	dir, err := os.MkdirTemp(shmBase2(), "verif-c19-")
+	dir, err := os.MkdirTemp(shmBase2(), fmt.Sprintf("verif-c19-%d-", os.Getpid()))
 	if err != nil {
 		res.Harness = err.Error()
 		return res
